@@ -325,7 +325,7 @@ def part_broadcast(ctx, pp, torch, pools, files2, meta2):
     opcode = dict(BINOPS + UNOPS)
     ltypes_seen = set()
     full = []
-    nfull = ctx.scale(700, 12000)
+    nfull = ctx.scale(700, 60000)
     # which (pair, g, op) get a complete evaluation over Q by the model: directed edge shapes first
     directed = {((), ()), ((), (2,)), ((2,), ()), ((0,), (1,)), ((1,), (0,)), ((2, 1), (3,)), ((3, 1, 2), (1, 3, 1)),
                 ((0, 2), (2, 1, 1)), ((1,), (1,)), ((2, 3), (2, 3)), ((3, 3, 3), (3, 3, 3)), ((1, 0), (3, 1, 1))}
